@@ -480,6 +480,23 @@ theorem C10_used_downstream_via_intermediate (k c v e : ℝ) :
   simp [Num.sum]
   rw [Real.sqrt_sq_eq_abs, abs_mul, mul_comm]
 
+/-- **C10 (used downstream, non-linear in an intermediate result).** `mid·mid` with `mid = k·a` made
+    earlier is `(k·value)² ± |2·k·value·k|·|uncertainty|` at the value and uncertainty in use NOW
+    (the central value of the intermediate result that the product rule needs is not a stored one). -/
+theorem C10_used_downstream_sq (k v e : ℝ) :
+    downstreamSq k v e = ((k * v) * (k * v), |2 * (k * v) * k| * |e|) := by
+  unfold downstreamSq Expr.propagate
+  have hs : Expr.sources (Expr.bin Op2.mul (Expr.bin Op2.mul (Expr.const k) (Expr.var 0))
+      (Expr.bin Op2.mul (Expr.const k) (Expr.var 0)) : Expr ℝ) = [0] := by
+    simp only [Expr.sources, List.nil_append, List.append_nil]
+    rfl
+  rw [hs]
+  simp only [Expr.eval, Expr.resultSums, Expr.quadTerms, Expr.pairTerms, Expr.diff, Gen.op2, Gen.d2,
+    Gen.quadTerm, Gen.combine, Gen.errOf, List.map_cons, List.map_nil, List.append_nil]
+  simp [Num.sum]
+  rw [Real.sqrt_sq_eq_abs, show e * (k * (k * v) + k * (k * v)) = 2 * (k * v) * k * e by ring]
+  simp only [abs_mul, abs_two]
+
 /-- the two ways of writing the later calculation agree (whatever was selected in between) -/
 theorem C10_via_intermediate_eq_direct (k c v e : ℝ) :
     downstreamVia k c v e = downstream k c v e := by
